@@ -798,6 +798,98 @@ def build_sizes(ck):
     ck.explore(f'{BASE}.in_size', symbolic, CM.theory(), label='symbolic-number-of-leaves')
 
 
+# ====================================================================== (E) reduced operators: the scalar stays no wider
+def build_reduced(ck):
+    """`reduced operators`: the square scenarios above hold for a scalar operator whose value is no wider than the data
+    (the property's own restriction).  HomothetyRule.apply builds NEW scalar operators during reduce(): its real body is
+    executed in the dtype facet and must re-establish that restriction — the merged value is no wider than every leaf
+    whenever every merged factor was — and put the new operator on the structure of the end it is moved to."""
+    P = ck.P
+    T = theory_struct()
+    AX = SA.axioms()
+    Other = honest_operand(P)
+    RULES = 'furax._base.rules'
+
+    def np_array(interp, v, dtype=None, **k):
+        if isinstance(v, SA.SLeaf):
+            return v
+        kind = SA.scalar_kind(v)
+        if dtype is not None or kind is None:
+            raise Unsupported('jnp.array of this argument (struct facet)')
+        # jnp.array / jnp.asarray of a Python scalar: a WEAKLY typed 0-d array of the default dtype of its kind
+        # (checked natively by the conformance part of the oracle `reduced_scalars`)
+        dc = {'int': z3.If(D.X64, D.I64, D.I32), 'float': z3.If(D.X64, D.F64, D.F32), 'complex': z3.If(D.X64, D.C128, D.C64)}[kind]
+        return SA.mk(interp, SSeq.lift((), 'tuple'), z3.simplify(dc), weak=True)
+
+    def scenario(pattern):
+        def sc(S):
+            S.oracle = {'name': 'reduced_scalars'}
+            S.inputs['chain'] = pattern
+            S.I.theory.externals['jax.numpy.array'] = np_array
+            S.I.theory.externals['jax.numpy.asarray'] = np_array
+            leaves = S.seq('s_leaves', kind='list', sort=ST.Leaf, wrap=ST.LeafV)
+            S.inputs.pop('s_leaves', None)
+            S.assume(to_z3(leaves.length) >= 1)
+            S.assume(leaves.forall(lambda k, e: z3.And(e.wf(), D.realisable(SA.dcode(e)))))
+            s = ST.StructV(leaves)
+            k = z3.Int('leaf_position')
+            S.assume(z3.And(0 <= k, k < to_z3(leaves.length)))
+            leaf = SA.as_sleaf(leaves.get(k))
+            S.assume(z3.Not(SA.f_weak(leaf.term)))
+            S.assume(SA.dcode(leaf) != D.BOOL)      # numeric data (the neutral factor 1 is already wider than a bool leaf)
+
+            def narrow(v):
+                """the scalar v is no wider than the generic leaf: multiplying keeps the leaf's dtype"""
+                return SA.promote_leaves(v, leaf)[0] == SA.dcode(leaf)
+            ops, values = [], []
+            for i, c in enumerate(pattern):
+                if c == 'H':
+                    v = SA.SLeaf(z3.Const(f'value{i}', ST.Leaf))
+                    S.assume(z3.And(ST.f_ndim(v.term) == 0, v.wf(), narrow(v)))        # requires (for every leaf: k generic)
+                    values.append(v)
+                    ops.append(S.new('HomothetyOperator', value=v, _in_structure=s))
+                else:
+                    o = Obj(Other, tag=f'O{i}')
+                    o.fields['ins'] = o.fields['outs'] = s
+                    ops.append(o)
+            sizes = {}
+
+            def size(which):
+                def f(interp, fi, args, kwargs):
+                    return sizes.setdefault((id(args[0]), which), fresh_int(which))
+                return f
+            S.I.contracts = dict(operand_contracts(S))
+            S.I.contracts[f'{BASE}.in_size'] = size('in_size')
+            S.I.contracts[f'{BASE}.out_size'] = size('out_size')
+            rule = Obj(P.cls('HomothetyRule'))
+            out = S.call(S.I.getattr(rule, 'apply'), [B.PyList(list(ops))])
+            if not out.normal:
+                S.oblige('exc', False, tag=f'no-exception-{out.value.name}')
+                return
+            res = B.as_seq(S.I, out.value).py_items()
+            hs = [o for o in res if isinstance(o, Obj) and o.cls.name == 'HomothetyOperator']
+            S.oblige('post', len(hs) <= 1, tag='at-most-one-scalar-operator-left')
+            for h in hs:
+                v = h.fields['value']
+                ok = isinstance(v, ST.LeafV)
+                S.oblige('post', ok, tag='merged-value-is-an-array')
+                if not ok:
+                    continue
+                v = SA.as_sleaf(v)
+                S.oblige('post', narrow(v), tag='merged-value-no-wider-than-any-leaf (mv keeps every leaf dtype: requires re-established)')
+                S.oblige('post', ST.f_ndim(v.term) == 0, tag='merged-value-is-a-scalar')
+                hs_ = S.call(S.I.getattr(h, 'in_structure'), [])
+                S.oblige('post', hs_.normal and (hs_.value is s or bool(struct_eq(hs_.value, s) is True)),
+                         tag='scalar-operator-sits-on-the-structure-of-its-end')
+        return sc
+    for pattern in ('HH', 'HO', 'OH', 'HOH', 'OHH', 'HHO', 'OHO', 'HHH'):
+        ck.explore(f'{RULES}.HomothetyRule.apply', scenario(pattern), T, label=f'dtype-facet:{pattern}', axioms=AX)
+    ck.bounded.append({'what': 'HomothetyRule.apply in the dtype facet: chains of <= 3 operators, every placement of scalar '
+                               'operators (the loop body `value *= operand.value` is executed for 0-3 scalar factors; pytrees '
+                               'with a symbolic number of leaves, symbolic dtypes and weak types, both precision modes)',
+                       'bound': 'chain length <= 3'})
+
+
 def build(ck):
     from props import C08
     C08.patch_class_table(ck.P)        # the decorators' rewiring (square / symmetric / orthogonal / diagonal), real bodies
@@ -810,3 +902,4 @@ def build(ck):
     add_lt = build_square(ck, groups)
     build_overrides(ck, groups, add_lt)
     build_sizes(ck)
+    build_reduced(ck)
